@@ -122,8 +122,8 @@ impl Campaign for C19 {
     }
     fn runs(&self, tier: Tier) -> u64 {
         match tier {
-            Tier::Quick => 12_000,
-            Tier::Thorough => 1_500_000,
+            Tier::Quick => 40_000,
+            Tier::Thorough => 3_000_000,
         }
     }
 
